@@ -228,9 +228,53 @@ def run(ctx):
                 r1.ok('Chemical._init_energies', '%s.functor(%s) binds %s' % (name, ', '.join(src(a) for a in n.args), params), fe, n)
             else:
                 # is the stored value overwritten before the function returns on every path?
-                r1.note('Chemical._init_energies',
-                        '%s.functor called with %d args, functor takes %s (binds by position; '
-                        'uncounted: value is overwritten whenever the heat capacity is usable)' % (name, len(n.args), params), fe, n)
+                from ..cfg import CFG as _CFG, header_exprs as _hx
+                st_ = n
+                while getattr(st_, '_parent', None) is not None and not isinstance(st_, ast.stmt):
+                    st_ = st_._parent
+                tgts = {src(t) for t in getattr(st_, 'targets', []) if isinstance(t, ast.Attribute)}
+                cfg_ = _CFG(fe.node)
+                nd0 = cfg_.node_of(st_)
+
+                def restores(nd):
+                    return nd is not nd0 and any(isinstance(h, ast.Assign) and any(src(t) in tgts for t in h.targets) for h in _hx(nd))
+                # what the enclosing tests establish about plain names that are never re-bound in the function (a parameter such as
+                # single_phase): later tests of the same name take the same branch
+                n_st = {}
+                for x in ast.walk(fe.node):
+                    if isinstance(x, ast.Name) and isinstance(x.ctx, (ast.Store, ast.Del)):
+                        n_st.setdefault(x.id, []).append(x)
+                # re-bound names: more than one binding, or one that comes after this statement
+                stored_ = {k_ for k_, v_ in n_st.items() if len(v_) > 1 or v_[0].lineno >= st_.lineno}
+                facts = {}
+                cur = st_
+                while getattr(cur, '_parent', None) is not None:
+                    par = cur._parent
+                    if isinstance(par, ast.If) and any(cur is b for b in par.body + par.orelse):
+                        t_, val_ = par.test, any(cur is b for b in par.body)
+                        while isinstance(t_, ast.UnaryOp) and isinstance(t_.op, ast.Not):
+                            t_, val_ = t_.operand, not val_
+                        if isinstance(t_, ast.Name) and t_.id not in stored_:
+                            facts.setdefault(t_.id, val_)
+                    cur = par
+
+                def contradicts(a, b, label):
+                    if a.kind != 'test' or not isinstance(a.ast, ast.If) or label not in (True, False):
+                        return False
+                    t_, neg = a.ast.test, False
+                    while isinstance(t_, ast.UnaryOp) and isinstance(t_.op, ast.Not):
+                        t_, neg = t_.operand, not neg
+                    return isinstance(t_, ast.Name) and t_.id in facts and (label != neg) != facts[t_.id]
+                dead = bool(tgts) and nd0 is not None and cfg_.must_pass(nd0, restores, edge_blocked=contradicts)[0]
+                if dead:
+                    r1.note('Chemical._init_energies',
+                            '%s.functor called with %d args, functor takes %s (binds by position; uncounted: the value stored into %s is '
+                            'overwritten on every path before the function returns)' % (name, len(n.args), params, sorted(tgts)), fe, n)
+                else:
+                    r1.fail('Chemical._init_energies', 'functor-arity', '%s.functor is called with %d arguments (%s) but the functor takes %s: they bind by '
+                            'position, so %s receives %s -- and what is stored into %s here is what the chemical keeps on some path' % (
+                                name, len(n.args), ', '.join(src(a) for a in n.args), params,
+                                params[-1] if params else '?', src(n.args[len(params) - 1]) if len(n.args) >= len(params) and params else '?', sorted(tgts)), fe, n)
 
     # ---- symbolic evaluation of _init_energies per reference phase
     for ref in ('s', 'l', 'g'):
